@@ -5,7 +5,7 @@
 //! `glob_m`   fields: <opts> <pattern> <alphabet> <maxlen>  -> one field, one char per string of the
 //!            length-lexicographic enumeration of all strings over <alphabet> up to <maxlen>:
 //!            `1` match, `0` no match, `E` error (Pattern::exactly_matches; opts: `e` extglob, `i` nocase)
-//! `glob_ms`  fields: <opts> <pattern> <string>*            -> same, for the listed strings
+//! `glob_ms`  fields: <opts> <pattern> <ignored> <string>*  -> same, for the listed strings
 //! `glob_sh`  fields: <kind> <opts> <pattern> <quoted-prefix> <string>*
 //!            in-process shell, end to end; kind: case | cond | rp | rpp | rs | rss
 //!            opts: comma separated shopt names switched on (extglob, nocasematch)
@@ -64,10 +64,9 @@ fn sq(s: &str) -> String {
 
 pub fn shell_script(kind: &str, opts: &str, pat: &str, qpre: &str, strings: &[String]) -> String {
     let mut sc = String::new();
-    for o in opts.split(',') {
-        if !o.is_empty() {
-            sc.push_str(&format!("shopt -s {o}\n"));
-        }
+    for o in ["extglob", "nocasematch"] {
+        let on = opts.split(',').any(|x| x == o);
+        sc.push_str(&format!("shopt -{} {o}\n", if on { "s" } else { "u" }));
     }
     sc.push_str(&format!("p={}\nq={}\n", sq(pat), sq(qpre)));
     sc.push_str("for s in");
@@ -122,7 +121,7 @@ pub fn run(sub: &str, cases: &[Vec<String>]) -> bool {
                     }
                     memo.as_ref().map(|m| m.2.clone()).unwrap_or_default()
                 } else {
-                    c.iter().skip(2).map(|s| unhex_str(s)).collect()
+                    c.iter().skip(3).map(|s| unhex_str(s)).collect()
                 };
                 let r = std::panic::catch_unwind(|| match_bits(&opts, &pat, &strings));
                 match r {
